@@ -17,14 +17,14 @@ RULE = ('Cases: an ancestor with substitution sites >= 2k apart and >= 2k from t
         'column multiset of <out>_snps.fas must equal the planted truth up to order and whole-column complement, names in input '
         'order.  With -r (k>=15; reference = ancestor, its reverse complement, or one of the samples; a share with an N run away from the sites): every VCF record at a '
         'planted coordinate with the true alleles on the reference strand, REF = reference base, pseudo-genomes of reference '
-        'length agreeing with every sample at every called position (how many planted sites are reported is recorded, not judged: the statement is about reported SNPs there).  Threads 1..8, with and without '
+        'length agreeing with every sample at every called position (how many planted sites are reported is recorded, not judged: the statement is about reported SNPs there).  A fifth of the runs write to a prefix that already holds the output of an earlier, larger run.  Threads 1..8, with and without '
         'seeded jitter at the hook points, -m in {0.1,0.2,0.4}.  Well-formedness (equal lengths, >= 2 distinct A/C/G/T per column, '
         'missing fraction <= -m) is also checked on clustered-variant / indel / repeat inputs.  Non-trivial: >= 1 planted site; '
         'distinct = distinct (k, samples, mode).')
 ASSUMPTIONS = ['the planted truth is the oracle; well-formedness is a direct predicate on the output',
                'union-of-samples uniqueness (DESIGN.md section 8); sites at least 2k from the sequence ends']
 REQUIRED = {t: ['mode:free', 'mode:ref', 'mode:wf', 'ref:ancestor', 'ref:revcomp', 'ref:sample', 'threads>1', 'jitter_runs',
-                'sites_called', 'multiallelic_sites', 'wf_columns_checked', 'vcf_records_checked', 'reference_with_N'] for t in ('quick', 'thorough')}
+                'sites_called', 'multiallelic_sites', 'wf_columns_checked', 'vcf_records_checked', 'reference_with_N', 'runs_over_existing_output'] for t in ('quick', 'thorough')}
 FREE_K = [7, 9, 11, 15, 17, 21, 31, 33]
 REF_K = [15, 17, 21, 31, 33]
 
@@ -131,6 +131,17 @@ def gen_clustered(rng, k):
         anc = anc + G.rseq(rng, 60) + seg + G.rseq(rng, 60) + seg + G.rseq(rng, 60)
     ns = rng.randint(3, 8)
     vars_ = [mutate(rng, anc, 0.004) for _ in range(3)]
+    if rng.random() < 0.6:
+        # pairs of substitutions at exact distances around k (one variant group spanning two SNPs that share k-mers)
+        for vi in range(len(vars_)):
+            v = list(vars_[vi])
+            for _ in range(rng.randint(1, 3)):
+                d = rng.choice([k - 2, k - 1, k - 1, k, k + 1, rng.randint(1, k)])
+                a = rng.randrange(2 * k, max(2 * k + 1, len(v) - 3 * k - d))
+                if a + d < len(v):
+                    for q in (a, a + d):
+                        v[q] = {'A': 'C', 'C': 'A', 'G': 'T', 'T': 'G'}[v[q]]
+            vars_[vi] = ''.join(v)
     return anc, [mutate(rng, rng.choice(vars_), 0.002) for _ in range(ns)]
 
 
@@ -224,6 +235,19 @@ def run_case(desc, ctx):
             args += ['-r', ctx.path('ref.fa')]
         else:
             refseq = None
+    if desc['seed'] % 5 == 0:
+        # an earlier run with more samples and more variants wrote to the same prefix
+        r2 = random.Random(desc['seed'] ^ 0x51)
+        g2 = gen_snps(r2, k, 8, 10)
+        if g2 is not None:
+            f2 = [G.write_fa(ctx.path('prev%d.fa' % i), [s_]) for i, s_ in enumerate(g2[1])]
+            if G.ska_build(ctx, ctx.path('prev'), f2, k, True).returncode == 0:
+                pargs = ['lo', ctx.path('prev.skf'), ctx.path('out'), '-m', '0.4']
+                if '-r' in args:
+                    ctx.write('prevref.fa', '>R\n%s\n' % (g2[0] + G.rseq(r2, 300)))
+                    pargs += ['-r', ctx.path('prevref.fa')]
+                if ctx.sh(ctx.ska, *pargs).returncode == 0:
+                    res.count('runs_over_existing_output')
     p = ctx.sh(ctx.ska, *args, env=lo_env(desc, ctx))
     res.evals += 1
     detail = {'k': k, 'mode': mode, 'ancestor': anc, 'samples': ss, 'truth': truth, 'threads': desc['threads'], 'jitter': desc.get('jitter'),
